@@ -64,7 +64,7 @@ def check(ctx):
     cov.update({
         "trusted_base": TRUSTED,
         "evaluations": n, "distinct_nontrivial": n - kinds.get("history-1", 0),
-        "rule": "single steps: all 32 stale-presence patterns x user file present/absent x 24 invocations {spec with components / without components / without operations} x {donotedit} x {client} x {api handler} (1536, exhaustive); histories: all 600 sequences of length <= 2 from an empty directory, 1200 (quick) / 12000 (thorough) sampled sequences of length 3, run in ONE process while every single-run reference comes from a fresh process; 60 (quick) / 600 (thorough) random histories of length 4-12 from random initial states; non-trivial = more than one invocation or a non-empty initial directory",
+        "rule": "single steps: all 32 stale-presence patterns x user file present/absent x 24 invocations {spec with components / without components / without operations} x {donotedit} x {client} x {api handler} (1536, exhaustive); histories: all 600 sequences of length <= 2 from an empty directory, 1200 (quick) / 12000 (thorough) sampled sequences of length 3, run in ONE process while every single-run reference comes from a fresh process; failed invocations (a package name that is not an identifier) before successful ones; spec files written once and dated one hour back; 60 (quick) / 600 (thorough) random histories of length 4-12 from random initial states; non-trivial = more than one invocation or a non-empty initial directory",
         "samples": samples, "agree_with_model": agree, "input_kinds": kinds, "harness_stats": meta.get("stats", {}),
         "exhaustive": True,
         "explanation": "single-step space enumerated completely; theorem history_last_wins lifts the validated step to histories of any length",
